@@ -225,7 +225,7 @@ Local Hint Resolve fpres_dispatch : fpresdb.
 Lemma fpres_on_message c msg o : fpres (on_message cfg c msg o).
 Proof. unfold on_message. repeat fr_step. Qed.
 
-Lemma fpres_on_open c : fpres (on_open c).
+Lemma fpres_on_open c : fpres (on_open cfg c).
 Proof. unfold on_open. repeat fr_step. Qed.
 
 Lemma fpres_on_close c : fpres (on_close c).
@@ -267,9 +267,9 @@ Proof.
   destruct b as [c|c m o|c|fault|dt fault]; cbn [step_b].
   - destruct (has_conn c s); [exact Ht|]. cbv zeta.
     assert (H : TF (now s) (next_due s)
-                   (fst (run_m (on_open c) (set_conns s (conns s ++ [(c, new_conn)])))))
+                   (fst (run_m (on_open cfg c) (set_conns s (conns s ++ [(c, new_conn)])))))
       by (apply run_m_TF; [apply fpres_on_open|exact H0]).
-    destruct (run_m (on_open c) (set_conns s (conns s ++ [(c, new_conn)]))) as [s2 x].
+    destruct (run_m (on_open cfg c) (set_conns s (conns s ++ [(c, new_conn)]))) as [s2 x].
     cbn [fst] in *. apply Hfin; exact H.
   - destruct (has_conn c s); [|exact Ht].
     pose proof (fpres_elim (now s) (next_due s) _ s
